@@ -12,6 +12,9 @@ import (
 
 // Obligation is one proof goal with its self-contained SMT script.
 type Obligation struct {
+	Prefix   string // script up to the goal (interned, shared)
+	Tail     string // goal assertion, check-sat, get-value
+	Neg      string // negated goal
 	Name     string // <pkg>.<Func>/<kind>#<n>
 	Func     string
 	Kind     string
@@ -56,6 +59,7 @@ type FnCtx struct {
 	entryVals  map[*ssa.Parameter]Val
 	entryTerms []entryTerm
 	quantHeavy     bool
+	interned       map[string]string
 	litText        map[string]string
 	catParts       map[string][]strAtom
 	entryHeld      string
@@ -282,6 +286,19 @@ func (s *State) havocCall(reason string, pkgs []*types.Package, funcArg bool) {
 		if funcArg {
 			return false
 		}
+		if strings.HasPrefix(key, "allocset|") {
+			// only the declaring package allocates objects of a tracked type
+			w := eng.trackedPkg(strings.TrimPrefix(key, "allocset|"))
+			if w == nil || !eng.callbackFree(w) {
+				return false
+			}
+			for _, q := range pkgs {
+				if q == nil || eng.reaches(q, w) {
+					return false
+				}
+			}
+			return true
+		}
 		if fam := keyFamily(key); fam != "" {
 			ws := eng.writersOf(fam)
 			if len(ws) == 0 {
@@ -413,6 +430,12 @@ func (s *State) refFacts(c comp, term string) {
 			}
 		case kStr:
 			s.strBasics(term)
+		case kIface:
+			// a value of a (non-empty) interface type declared in the repository is nil or holds one of
+			// the module's types that implement it (closed world)
+			if it, ok := c.T.Underlying().(*types.Interface); ok && it.NumMethods() > 0 && s.c.eng.ifaceInRepo(c.T) {
+				s.assume(or(eq(term, "nilI"), s.implementsCond(Val{T: c.T, S: term}, it)))
+			}
 		case kInt:
 			if isUnsigned(c.T) {
 				s.assume(app("<=", "0", term))
@@ -728,6 +751,11 @@ func (s *State) allocObj(t types.Type, ptrT types.Type) Val {
 	switch kindOf(t) {
 	case kStruct:
 		s.initStruct(r, t)
+		if s.c.eng.isTracked(t) {
+			key := "allocset|" + typeKey(t)
+			srt := arrSort(sInt, sBool)
+			s.heapSet(key, srt, sto(s.heapGet(key, srt), r, "true"))
+		}
 	case kArray:
 		at := t.Underlying().(*types.Array)
 		// zero the backing array
@@ -890,6 +918,12 @@ func (c *FnCtx) ordinal(instr ssa.Instruction, kind string) int {
 }
 
 func (s *State) script(goalNeg string) string {
+	p, t := s.scriptParts(goalNeg)
+	return p + t
+}
+
+// scriptParts: everything up to the goal (shared by all obligations emitted from the same state) and the goal tail.
+func (s *State) scriptParts(goalNeg string) (string, string) {
 	var b strings.Builder
 	b.WriteString(prelude)
 	for _, d := range s.c.eng.globalDecls {
@@ -926,6 +960,7 @@ func (s *State) script(goalNeg string) string {
 		b.WriteString(l)
 		b.WriteByte('\n')
 	}
+	var tail string
 	if len(s.c.entryTerms) > 0 {
 		var ns []string
 		for _, et := range s.c.entryTerms {
@@ -933,11 +968,23 @@ func (s *State) script(goalNeg string) string {
 			b.WriteString(fmt.Sprintf("(define-fun %s () %s %s)\n", n, et.Sort, et.Term))
 			ns = append(ns, n)
 		}
-		b.WriteString("(assert " + goalNeg + ")\n(check-sat)\n(get-value (" + strings.Join(ns, " ") + "))\n")
+		tail = "(assert " + goalNeg + ")\n(check-sat)\n(get-value (" + strings.Join(ns, " ") + "))\n"
 	} else {
-		b.WriteString("(assert " + goalNeg + ")\n(check-sat)\n(get-model)\n")
+		tail = "(assert " + goalNeg + ")\n(check-sat)\n(get-model)\n"
 	}
-	return b.String()
+	return s.c.internStr(b.String()), tail
+}
+
+// internStr shares identical prefixes between obligations.
+func (c *FnCtx) internStr(x string) string {
+	if c.interned == nil {
+		c.interned = map[string]string{}
+	}
+	if y, ok := c.interned[x]; ok {
+		return y
+	}
+	c.interned[x] = x
+	return x
 }
 
 // oblige emits a proof goal: in this state, `goal` must hold.
@@ -958,8 +1005,9 @@ func (s *State) oblige(kind string, instr ssa.Instruction, n int, goal, desc str
 		pos = fmt.Sprintf("%s:%d", strings.TrimPrefix(p.Filename, c.eng.repo+"/"), p.Line)
 	}
 	o := &Obligation{Name: name, Func: c.name, Kind: kind, Pos: pos, Desc: desc, Expect: "unsat", PathID: c.paths, Contract: contract}
-	o.Script = s.script(not(goal))
-	if len(o.Script) > c.eng.maxVC {
+	o.Prefix, o.Tail = s.scriptParts(not(goal))
+	o.Neg = not(goal)
+	if len(o.Prefix)+len(o.Tail) > c.eng.maxVC {
 		o.Status = "too-large"
 	}
 	c.obls = append(c.obls, o)
@@ -973,8 +1021,9 @@ func (s *State) obligeNamed(name, kind, goal, desc string, contract bool) {
 		c.clauseErr = ""
 	}
 	o := &Obligation{Name: name, Func: c.name, Kind: kind, Desc: desc, Expect: "unsat", PathID: c.paths, Contract: contract}
-	o.Script = s.script(not(goal))
-	if len(o.Script) > c.eng.maxVC {
+	o.Prefix, o.Tail = s.scriptParts(not(goal))
+	o.Neg = not(goal)
+	if len(o.Prefix)+len(o.Tail) > c.eng.maxVC {
 		o.Status = "too-large"
 	}
 	c.obls = append(c.obls, o)
@@ -984,7 +1033,8 @@ func (s *State) obligeNamed(name, kind, goal, desc string, contract bool) {
 func (s *State) cover(kind string, n int, desc string) {
 	c := s.c
 	o := &Obligation{Name: fmt.Sprintf("%s/%s#%d", c.name, kind, n), Func: c.name, Kind: kind, Desc: desc, Expect: "sat", PathID: c.paths}
-	o.Script = s.script("true")
+	o.Prefix, o.Tail = s.scriptParts("true")
+	o.Neg = "true"
 	c.obls = append(c.obls, o)
 }
 
